@@ -2,6 +2,7 @@ import F1Verif.Util
 import F1Verif.Model.MiniGo
 import F1Verif.Model.Distribution
 import F1Verif.Model.Staged
+import F1Verif.Drive.Gaussian
 import F1Verif.Generated.MiniGo
 /-!
 Driver ops `mg.*`: the MiniGo programs regenerated from /repo are *executed* (binary64 arithmetic) on the same cases
@@ -207,5 +208,47 @@ def mgRamp (args impl : List String) : Option (String × String) := do
     | some e => pure (e, "ok")
     | none => pure (s!"{impl.getD 0 "-"} {impl.getD 1 "-"} {intsTok r.1.toList}", "ok")
   | _ => none
+
+/-- `mg.gauss <volume> <repeat> <freq> <peak> <stddev> <weights> <start> <n> [<k>:<w>]` — the generated `Calculator.For`
+called once per tick on the state the previous call left (the remainder); the density values are the ones the real
+distribution returned (an external of the program), the multiplier comes from the model of `NewCalculator` -/
+def mgGauss (args impl : List String) : Option (String × String) := do
+  let (args, jumpAt, jumpBy) : List String × Nat × Int := match args with
+    | [a, b, c, d, e, f, g, h, j] =>
+      (match j.splitOn ":" with
+       | [k, w] => ([a, b, c, d, e, f, g, h], k.toNat?.getD 0, (w.toInt?.getD 0))
+       | _ => ([a, b, c, d, e, f, g, h], 0, 0))
+    | l => (l, 0, 0)
+  match args, impl with
+  | [vol, rep, freq, _peak, sd, ws, start, n], [chi, c0, _outs, pdfs] =>
+    let vol ← floatOfHex vol
+    let rep ← rep.toInt?; let freq ← freq.toInt?; let sd ← sd.toInt?
+    let ws ← (if ws.startsWith "s:" then parseWeightString (ws.drop 2).toString else parseFloats ws)
+    let start ← start.toInt?; let n ← n.toNat?
+    if sd ≤ 0 then return ("err", "ok")
+    let chiF ← floatOfHex chi; let c0F ← floatOfHex c0
+    let pdfA ← parseFloats pdfs
+    let c := F1.Gaussian.newCalcF vol freq rep chiF c0F ws
+    let ext : Ext Float := fun f k _ => if f = "recv.dist.PDF" then .flt (pdfA.getD k 0.0) else .nil
+    let s0 : State Float := ⟨[("recv.repeatWindow", .int rep), ("recv.multiplier", .flt c.multiplier),
+      ("recv.averageWeight", .flt c.averageWeight), ("recv.remainder", .flt 0.0), ("arg0", .int 0)], [], [], [],
+      [("recv.weights", ws.toList.map fun x => [("", Val.flt x)])]⟩
+    let r := Id.run do
+      let mut s := s0
+      let mut outs : Array Int := Array.mkEmpty n
+      let mut err : Option String := none
+      for k in [0:n] do
+        if err.isNone then
+          let t := start + F1.Gaussian.unixToAbs + (k : Int) * freq + (if jumpBy ≠ 0 ∧ k ≥ jumpAt then jumpBy * rep else 0)
+          match runFn ext (ws.size + 2) gauss_For (s.set "arg0" (.int t)) with
+          | .ok ([.int o], s') => outs := outs.push o; s := s'
+          | .ok _ => err := some "mg-error:shape"
+          | .error m => err := some (mgErr m)
+      return (outs, err)
+    match r.2 with
+    | some e => pure (e, "ok")
+    | none => pure (s!"{chi} {c0} {intsTok r.1.toList} {pdfs}", "ok")
+  | _, ["err"] => pure ("err", "ok")
+  | _, _ => none
 
 end F1.Drive
